@@ -184,6 +184,18 @@ fn judge_history(solver: Solver, hist: &[Op], st: &mut HistStats) {
                 if out.after.iter().any(|a| *a != "None") {
                     viols.push(vcore::Viol::new(&subj, "fused-after-completion", format!("{}: further next() calls returned {:?}", ctx(), out.after)));
                 }
+                // differential: however the configuration was reached, the run must be the run of the canonical history
+                // of the same effective parameters (minimum, maximum, tolerance, start, end set once, in order) - bit
+                // for bit.  A setter whose effect depends on what was set before it in a way the contract does not say
+                // (a stale bound, an ignored second call) changes the path and shows here.
+                if ops.len() > canonical_ops(solver, &cfg).len() || ops.iter().zip(canonical_ops(solver, &cfg).iter()).any(|(a, b)| a != b) {
+                    let canon = run_ops::<f64>(solver, DimMode::Static, &canonical_ops(solver, &cfg), &[1.0], zero_rhs(), &lim);
+                    st.runs += 1;
+                    let same = canon.items.len() == out.items.len() && canon.items.iter().zip(&out.items).all(|(a, b)| a.0.to_bits() == b.0.to_bits());
+                    if !same {
+                        viols.push(vcore::Viol::new(&subj, "configuration-equals-its-canonical-form", format!("{}: path times {:?} but the same parameters set once (min {:?} max {:?} tol {:?} t0 {:?} t1 {:?}) give {:?}", ctx(), out.items.iter().map(|x| x.0).take(6).collect::<Vec<_>>(), r.min, r.max, r.tol, r.t0, r.t1, canon.items.iter().map(|x| x.0).take(6).collect::<Vec<_>>())));
+                    }
+                }
                 st.sigs.insert(format!("{}|complete|{}", solver.name(), gap_signature(solver, &cfg, &out).chars().take(12).collect::<String>()));
             }
             (Some(Err(ErrKind::Missing)), false) => {
@@ -281,7 +293,7 @@ impl Check for Histories {
         "builder-histories"
     }
     fn rule(&self) -> String {
-        "for each of the 7 builders EVERY sequence of up to `depth` calls from a 20-letter alphabet (with_tolerance / with_maximum_dt / with_minimum_dt x {0.25, 1, 0, -1}; with_initial_time / with_ending_time x {0, 1, -1}; initial conditions; derivative), each history solved as is, completed with the missing mandatory setters, and (histories of up to 3 calls) completed with all but ONE of them, for every one; every call result, the solve result and the run on y'=0 compared with a reference model of the builder contract; states = histories, transitions = builder calls judged; signature = (builder, rejected-with / missing-set / gap classes)".into()
+        "for each of the 7 builders EVERY sequence of up to `depth` calls from a 20-letter alphabet (with_tolerance / with_maximum_dt / with_minimum_dt x {0.25, 1, 0, -1}; with_initial_time / with_ending_time x {0, 1, -1}; initial conditions; derivative), each history solved as is, completed with the missing mandatory setters, and (histories of up to 3 calls) completed with all but ONE of them, for every one; every call result, the solve result and the run on y'=0 compared with a reference model of the builder contract, and every complete history against the canonical history of its effective parameters (identical paths); states = histories, transitions = builder calls judged; signature = (builder, rejected-with / missing-set / gap classes)".into()
     }
     fn axes(&self, t: Tier) -> Value {
         json!({"alphabet": format!("{:?}", alphabet()), "depth": t.pick(5, 6), "completion_suffix": format!("{:?}", SUFFIX)})
